@@ -22,6 +22,12 @@ for i in range(1, 20):
             "attributes and hand-written Serialize/Deserialize/PartialEq/Default impls, endianness and padding of integers, "
             "release-vs-debug arithmetic, helper functions that are public but not used by the main flows, and clauses of the "
             "property statement that none of the earlier attempts touched.\n")
+    if k >= 6:
+        hint += ("- Further places: a wrong variable of the same type passed to a helper (two bounds, two moduli, two generator lists), "
+                 "comparison operators at interval ends (< vs <=), sign handling of big integers (negative values, abs, % vs rem_euc), "
+                 "security parameters and their arithmetic (bit lengths, shifts, powers of two), the prover and verifier sides of one "
+                 "sub-protocol drifting apart, checks that are correct for honest inputs but too weak against a party that deviates "
+                 "from the protocol in one chosen value.\n")
     mid = (f"- {words[k]} already used the following ideas; do something DIFFERENT from all of them (different function and "
            "different mechanism; no per-thread/process caches, no all/any swaps, no `vec![expr; n]` tricks, no dropped subgroup "
            "checks, no secure_pow_mod / zero-exponent panics, no dedup of equal messages):\n" + lst + "\n" + hint)
